@@ -247,27 +247,37 @@ Section Hash.
   (* '20s' *)
   Definition fit20 (d : list N) : list N := firstn 20 (d ++ repeat 0 20).
 
-  Definition ser_rec (r : rec) : list N :=
+  (* struct.pack(CACHE_ENTRY_FMT, ctime, mtime, dev, ino, mode, size, digest, len(name)) *)
+  Definition pack_entry (r : rec) : list N :=
     le_enc 8 (r_ctime r) ++ le_enc 8 (r_mtime r) ++ le_enc 8 (r_dev r) ++ le_enc 8 (r_ino r) ++
     le_enc 4 (r_mode r) ++ le_enc 8 (r_size r) ++ fit20 (r_digest r) ++
-    le_enc 2 (N.of_nat (length (r_name r))) ++ r_name r.
+    le_enc 2 (N.of_nat (length (r_name r))).
 
-  (* one __readEntry at a position where [b] is the rest of the file:
-     the record and the rest after it; None = short read.
+  Definition ser_rec (r : rec) : list N := pack_entry r ++ r_name r.
+
+  (* struct.unpack(CACHE_ENTRY_FMT, raw): the record still lacking its name, and nameLen.
      (ctime/mtime are 'q' (signed) in the file; time stamps are < 2^63 so the
      unsigned reading compares equal to st_*time_ns exactly when the signed one does) *)
+  Definition unpack_entry (raw : list N) : (list N -> rec) * N :=
+    let ct := le_dec (firstn 8 raw) in            let raw := skipn 8 raw in
+    let mt := le_dec (firstn 8 raw) in            let raw := skipn 8 raw in
+    let dv := le_dec (firstn 8 raw) in            let raw := skipn 8 raw in
+    let ino := le_dec (firstn 8 raw) in           let raw := skipn 8 raw in
+    let md := le_dec (firstn 4 raw) in            let raw := skipn 4 raw in
+    let sz := le_dec (firstn 8 raw) in            let raw := skipn 8 raw in
+    let dg := firstn 20 raw in                    let raw := skipn 20 raw in
+    let nl := le_dec (firstn 2 raw) in
+    (fun nm => mkrec nm ct mt dv ino md sz dg, nl).
+
+  (* one __readEntry at a position where [b] is the rest of the file:
+     the record, the amount by which __inPos advances, and the rest of the
+     file after it; None = short read of the fixed part. *)
   Definition read_entry (b : list N) : option (rec * N * list N) :=
-    if (length b <? ENTRY_SIZE)%nat then None else
-      let ct := le_dec (firstn 8 b) in            let b := skipn 8 b in
-      let mt := le_dec (firstn 8 b) in            let b := skipn 8 b in
-      let dv := le_dec (firstn 8 b) in            let b := skipn 8 b in
-      let ino := le_dec (firstn 8 b) in           let b := skipn 8 b in
-      let md := le_dec (firstn 4 b) in            let b := skipn 4 b in
-      let sz := le_dec (firstn 8 b) in            let b := skipn 8 b in
-      let dg := firstn 20 b in                    let b := skipn 20 b in
-      let nl := le_dec (firstn 2 b) in            let b := skipn 2 b in
-      let nm := firstn (N.to_nat nl) b in
-      Some (mkrec nm ct mt dv ino md sz dg, N.of_nat ENTRY_SIZE + nl, skipn (N.to_nat nl) b).
+    let raw := firstn ENTRY_SIZE b in
+    if (length raw <? ENTRY_SIZE)%nat then None else
+      let b := skipn ENTRY_SIZE b in
+      let '(mk, nl) := unpack_entry raw in
+      Some (mk (firstn (N.to_nat nl) b), N.of_nat ENTRY_SIZE + nl, skipn (N.to_nat nl) b).
 
   (* all records of a file body with their start offsets *)
   Fixpoint parse_entries (fuel : nat) (pos : N) (b : list N) : list (N * rec) :=
@@ -491,6 +501,14 @@ Definition collision (H : list N -> list N) (l1 l2 : list (list N)) : Prop :=
 
 Definition bytes_lt (a b : list N) : Prop := bytes_ltb a b = true.
 
+(* a walk that only records the names handed to index.check, in call order *)
+Definition log_chk (H : list N -> list N) (p : list N) (st : stat) (b : list N) (l : list (list N)) :
+  list N * list (list N) := (H b, l ++ [p]).
+Definition log_hdir (H : list N -> list N) (b : list N) (l : list (list N)) :
+  list N * list (list N) := (H b, l).
+Definition check_sequence (H : list N -> list N) (ign : list (list N)) (es : entries) : list (list N) :=
+  snd (walk_root (log_chk H) (log_hdir H) (norm_entries ign es) []).
+
 (* ------------------------------------------------------------------ ties and test instances *)
 
 Definition nlist_eqb (a b : list N) : bool := bytes_eqb a b.
@@ -526,3 +544,55 @@ Definition event_eqb (a b : event) : bool :=
   | EvHash x, EvHash y => bytes_eqb x y
   | _, _ => false
   end.
+
+(* ------------------------------------------------------------------ closed instances for the non-vacuity examples *)
+
+Definition ex_st (t ino mode size : N) : stat := mkstat (1790000000000000000 + t) (1790000000000000000 + t) 65024 ino mode size.
+
+(* b "hi" | a/ {x "!" (0755), l -> x} | a.b "" | .git/H (ignored), in some directory order *)
+Definition ex_tree1 : entries :=
+  [ ([98], File (ex_st 1 11 33188 2) [104;105]);
+    ([97], Dir (ex_st 2 12 16877 4096) [ ([120], File (ex_st 3 13 33261 1) [33]);
+                                         ([108], Link (ex_st 4 14 41471 1) [120]) ]);
+    ([97;46;98], File (ex_st 5 15 33188 0) []);
+    ([46;103;105;116], Dir (ex_st 6 16 16877 4096) [ ([72], File (ex_st 7 17 33188 1) [1]) ]) ].
+
+(* the same visible tree: other order, times, inodes, no .git, a BaseDirList.txt *)
+Definition ex_tree1b : entries :=
+  [ ([97;46;98], File (ex_st 50 95 33188 0) []);
+    ([66;97;115;101;68;105;114;76;105;115;116;46;116;120;116], File (ex_st 51 96 33188 1) [9]);
+    ([97], Dir (ex_st 52 92 16877 60) [ ([108], Link (ex_st 54 94 41471 1) [120]);
+                                        ([120], File (ex_st 53 93 33261 1) [33]) ]);
+    ([98], File (ex_st 55 91 33188 2) [104;105]) ].
+
+(* ex_tree1 after: a/x rewritten with the same size (stat changes), c created *)
+Definition ex_tree2 : entries :=
+  [ ([98], File (ex_st 1 11 33188 2) [104;105]);
+    ([99], File (ex_st 9 18 33188 3) [110;101;119]);
+    ([97], Dir (ex_st 8 12 16877 4096) [ ([120], File (ex_st 8 13 33261 1) [63]);
+                                         ([108], Link (ex_st 4 14 41471 1) [120]) ]);
+    ([97;46;98], File (ex_st 5 15 33188 0) []);
+    ([46;103;105;116], Dir (ex_st 6 16 16877 4096) [ ([72], File (ex_st 7 17 33188 1) [1]) ]) ].
+
+(* cache.bin left by hashing ex_tree1 without a cache *)
+Definition ex_cache1 : option (list N) := snd (hash_cached H_toy IGNORE_DIRS None ex_tree1).
+
+Definition check_events (l : list event) : list (list N * bool) :=
+  flat_map (fun e => match e with EvCheck n h => [(n, h)] | EvHash _ => [] end) l.
+
+(* the contents that name + stat data denote in the history ex_tree1, ex_tree2 *)
+Definition ex_content_of (p : list N) (k : statkey) : list N :=
+  let '(ct, _, _, _, _, _) := k in
+  if bytes_eqb p [98] then [104;105]
+  else if bytes_eqb p [99] then [110;101;119]
+  else if bytes_eqb p [97;47;120] then (if ct =? 1790000000000000003 then [33] else [63])
+  else if bytes_eqb p [97;47;108] then [120]
+  else if bytes_eqb p [46;103;105;116;47;72] then [1]
+  else [].
+
+(* without the "no NUL in names" side condition the directory blob is ambiguous:
+   one file whose name contains a packed mode, a digest and another name ... *)
+Definition ex_nul_name : list N := [120] ++ le_enc 4 33188 ++ H_toy [50] ++ [121].
+Definition ex_amb1 : entries := [ (ex_nul_name, File (ex_st 1 1 33188 1) [49]) ].
+(* ... hashes like two files x and y *)
+Definition ex_amb2 : entries := [ ([120], File (ex_st 1 1 33188 1) [49]); ([121], File (ex_st 1 2 33188 1) [50]) ].
